@@ -285,8 +285,7 @@ pub fn explore(prop: &'static str, depth: usize, only: &Option<String>) -> Stats
             items.push(Item { first: *op, depth: d });
         }
     }
-    par_items(&items, Some(300_000), &|it: &Item| {
-        println!("VIOLATION property={prop} replay=/verif/replays/{prop}-hang.json");
+    par_items(&items, Some(bridge::rt::hang_limit()), &|it: &Item| {
         println!("  fingerprint: {prop} low-level reader does not return: sequences starting with {:?}", it.first);
     }, &|it: &Item, st: &mut Stats| {
         let n = all.len();
